@@ -417,7 +417,6 @@ func (s *Session) transactionHandler(cmd string, args []string) {
 			s.send("-ERR RETR argument must not exceed the number of messages")
 			return
 		}
-		s.send(fmt.Sprintf("+OK %v bytes follows", s.messages[msgNum-1].Size()))
 		s.sendMessage(s.messages[msgNum-1])
 	case "TOP":
 		if len(args) != 2 {
@@ -454,7 +453,6 @@ func (s *Session) transactionHandler(cmd string, args []string) {
 			s.send("-ERR TOP second argument must be non-negative")
 			return
 		}
-		s.send("+OK Top of message follows")
 		s.sendMessageTop(s.messages[msgNum-1], int(lines))
 	case "QUIT":
 		s.send("+OK We will process your deletes")
@@ -485,6 +483,9 @@ func (s *Session) sendMessage(msg storage.Message) {
 			s.logger.Error().Msgf("Failed to close message: %v", err)
 		}
 	}()
+	// Positive status only once the content is known to be readable (the message may have
+	// been deleted by someone else since login): one command, one status line.
+	s.send(fmt.Sprintf("+OK %v bytes follows", msg.Size()))
 
 	scanner := bufio.NewScanner(reader)
 	// A line can be as long as the message itself, the default 64 KiB token limit would
@@ -521,6 +522,7 @@ func (s *Session) sendMessageTop(msg storage.Message, lineCount int) {
 			s.logger.Error().Msgf("Failed to close message: %v", err)
 		}
 	}()
+	s.send("+OK Top of message follows")
 
 	scanner := bufio.NewScanner(reader)
 	// A line can be as long as the message itself, the default 64 KiB token limit would
